@@ -441,8 +441,8 @@ def _judge(family, tracefile, inputsfile, wd, verdict, max_events=12000):
     if not chunks:
         raise vf.MachineryError("no trace recorded for " + family)
     results = []
-    for i in range(0, len(chunks), 8):
-        results += _par([(lambda c=c: _validate(c[0], c[1])) for c in chunks[i:i + 8]])
+    for i in range(0, len(chunks), 5):
+        results += _par([(lambda c=c: _validate(c[0], c[1])) for c in chunks[i:i + 5]])
     states = sum(r.distinct for r, _v, _rej in results)
     for (sub, _n), (_r, _v, rej) in zip(chunks, results):
         if rej:
@@ -542,20 +542,23 @@ def run_c12(pid, tier, replay):
         return r
 
     alpha = _q(ALPHABET)
+    names = ["exh", "sim", "mut"] + (["chain"] if thorough else [])
     thunks = [
-        mc_contract,
         lambda: _tlc_cases("MCParseInputs", INPUTS_CFG % dict(maxlen=maxlen, emin=0, alpha=alpha), wd, "exh",
                            wd + "/cases_exh.jsonl", workers=8 if thorough else 6, timeout=2400),
         lambda: _tlc_cases("MCParseInputs", INPUTS_CFG % dict(maxlen=simd, emin=simd, alpha=alpha), wd, "sim",
                            wd + "/cases_sim.jsonl", simulate=simn, depth=simd + 1, dedupe_key=lambda o: "".join(o["text"])),
         lambda: _mutants(files, wd, "mut", wd + "/cases_mut.jsonl", stride),
-        lambda: _mutants(files, wd, "chain", wd + "/cases_chain.jsonl", chain_stride, chain=2),
     ]
+    if thorough:   # the quick tier keeps the number of JVM starts down
+        thunks.append(lambda: _mutants(files, wd, "chain", wd + "/cases_chain.jsonl", chain_stride, chain=2))
+        thunks.append(mc_contract)
     res = _par(thunks)
-    _log("TLC done: contract %.0fs, " % res[0].wall + ", ".join("%s=%d/%.0fs" % (n, c, r.wall) for n, (r, c) in zip(["exh", "sim", "mut", "chain"], res[1:])))
-    contract = res[0]
+    contract = res[-1] if thorough else None
+    gen = res[:len(names)]
+    _log("TLC done: " + ", ".join("%s=%d/%.0fs" % (n, c, r.wall) for n, (r, c) in zip(names, gen)))
     fam = collections.OrderedDict()
-    for name, (r, n) in zip(["exh", "sim", "mut", "chain"], res[1:]):
+    for name, (r, n) in zip(names, gen):
         fam[name] = {"tlc_states": r.distinct, "tlc_transitions": r.generated, "inputs": n}
     if fam["exh"]["inputs"] != sum(len(ALPHABET) ** k for k in range(maxlen + 1)):
         raise vf.MachineryError("exhaustive enumeration incomplete: %d" % fam["exh"]["inputs"])
@@ -565,7 +568,7 @@ def run_c12(pid, tier, replay):
         for n in ("exh", "sim"):
             shutil.copyfileobj(open("%s/cases_%s.jsonl" % (wd, n)), out)
     with open(wd + "/cases_mutall.jsonl", "w") as out:
-        for n in ("mut", "chain"):
+        for n in [x for x in names if x in ("mut", "chain")]:
             shutil.copyfileobj(open("%s/cases_%s.jsonl" % (wd, n)), out)
     st_text, st_mut = _par([
         lambda: _record_calls(binary, wd + "/cases_text.jsonl", wd + "/trace_text.ndjson", wd + "/inputs_text.jsonl", "text"),
@@ -573,12 +576,12 @@ def run_c12(pid, tier, replay):
                               modes="tolerant" if thorough else "tolerant,abort"),
     ])
     _log("recorded: text %s; mutants %s" % (st_text["stats"], st_mut["stats"]))
-    vstates = 0
-    nchunks = 0
-    for family, tr, inp in (("text", "trace_text.ndjson", "inputs_text.jsonl"), ("mutants", "trace_mut.ndjson", "inputs_mut.jsonl")):
-        s, c = _judge(family, wd + "/" + tr, wd + "/" + inp, wd, verdict, max_events=60000 if thorough else 12000)
-        vstates += s
-        nchunks += c
+    judged = _par([(lambda family=family, tr=tr, inp=inp: _judge(family, wd + "/" + tr, wd + "/" + inp, wd, verdict,
+                                                                 max_events=60000 if thorough else 10 ** 9))
+                   for family, tr, inp in (("text", "trace_text.ndjson", "inputs_text.jsonl"),
+                                           ("mutants", "trace_mut.ndjson", "inputs_mut.jsonl"))])
+    vstates = sum(s for s, _c in judged)
+    nchunks = sum(c for _s, c in judged)
     _log("validated: %d TLC states in %d chunks" % (vstates, nchunks))
     calls = st_text["stats"]["Calls"] + st_mut["stats"]["Calls"]
     distinct = st_text["stats"]["Distinct"] + st_mut["stats"]["Distinct"]
@@ -606,8 +609,8 @@ def run_c12(pid, tier, replay):
             feats[k] += v
     rc = verdict.finish()
     vf.write_evidence(pid, tier, "model_checking", {
-        "states": vstates + contract.distinct + sum(f["tlc_states"] for f in fam.values()),
-        "transitions": vstates + contract.generated + sum(f["tlc_transitions"] for f in fam.values()),
+        "states": vstates + (contract.distinct if contract else 0) + sum(f["tlc_states"] for f in fam.values()),
+        "transitions": vstates + (contract.generated if contract else 0) + sum(f["tlc_transitions"] for f in fam.values()),
         "traces_validated_against_impl": calls,
         "evaluations": calls,
         "distinct_nontrivial": distinct,
@@ -619,9 +622,9 @@ def run_c12(pid, tier, replay):
         "exhaustive": True,
         "families": fam,
         "bounds": {"exhaustive_maxlen": maxlen, "alphabet": ALPHABET, "simulate": [simn, simd],
-                   "mutation_stride": stride, "mutation_chain2_stride": chain_stride, "base_files": [f["name"] for f in files]},
+                   "mutation_stride": stride, "mutation_chain2_stride": chain_stride if thorough else None, "base_files": [f["name"] for f in files]},
         "trace_validation": {"events": events, "tlc_states": vstates, "chunks": nchunks,
-                             "contract_model_states": contract.distinct},
+                             "contract_model_states": contract.distinct if contract else "thorough tier only"},
         "call_features": dict(feats),
         "max_errors_in_one_call": max(st_text["stats"]["MaxErrorsInOneCall"], st_mut["stats"]["MaxErrorsInOneCall"]),
         "binding_selftests": selftest,
